@@ -724,13 +724,30 @@ def pyBin (op : String) (a b : Int) : Except Err Val :=
   | "ne" => .ok (.int (if a ≠ b then 1 else 0))
   | _ => .error (.internal "bad-op")
 
+/-- Lexicographic order on bit lists (`False < True`, a proper prefix is smaller): the order of Python `bytes`, and of
+    hex / bin / oct strings of one kind, through their encodings. -/
+def bitsLt : Bits → Bits → Bool
+  | [], [] => false
+  | [], _ :: _ => true
+  | _ :: _, [] => false
+  | x :: xs, y :: ys => if x = y then bitsLt xs ys else (!x && y)
+
 def pyBinV (op : String) (a b : Val) : Except Err Val :=
   match a, b with
   | .int x, .int y => pyBin op x y
-  | .raw x, .raw y =>                       -- str/bytes/Bits items: only == / != are meaningful
+  | .raw x, .raw y =>                       -- str / bytes items of one kind: equality and lexicographic order
     match op with
     | "eq" => .ok (.int (if x = y then 1 else 0))
     | "ne" => .ok (.int (if x ≠ y then 1 else 0))
+    | "lt" => .ok (.int (if bitsLt x y then 1 else 0))
+    | "le" => .ok (.int (if bitsLt y x then 0 else 1))
+    | "gt" => .ok (.int (if bitsLt y x then 1 else 0))
+    | "ge" => .ok (.int (if bitsLt x y then 0 else 1))
+    | _ => .error .type
+  | .int _, .raw _ | .raw _, .int _ =>      -- a number never equals a str / bytes / Bits item; ordering raises
+    match op with
+    | "eq" => .ok (.int 0)
+    | "ne" => .ok (.int 1)
     | _ => .error .type
   | _, _ => .error .type
 
